@@ -463,6 +463,42 @@ def pool_shard(args) -> Acc:
     return acc
 
 
+def _backoff_history(bat, inv, n_failures):
+    """healthy start, then ``n_failures`` failed commands for ``bat``, each issued half a second after the previous
+    block has expired, with fresh data in between (so that only the blocking logic decides), and a look at the
+    status every second afterwards"""
+    other_b, other_i = (19, 18) if bat == 9 else (9, 8)
+    fresh = [("B", bat, "ok"), ("I", inv, "ok"), ("B", other_b, "ok"), ("I", other_i, "ok")]
+    hist = list(fresh)
+    wait = 1.0
+    for k in range(n_failures):
+        hist.append(("R", f"fail{bat}"))
+        for _ in range(int(min(wait, MAXB))):
+            hist += [("W", 1.0), *fresh]
+        hist += [("W", 0.5), *fresh]
+        wait *= 2
+    return hist
+
+
+def pool_directed(_args) -> Acc:
+    """A few long histories beyond the exhaustive depth: the back-off sequence up to its cap, through the pool."""
+    acc = Acc()
+    for bat, inv in ((9, 8), (19, 18)):
+        for n in (3, 4, 5):
+            hist = _backoff_history(bat, inv, n)
+            viol = run_pool_history(hist)
+            acc.evaluations += 1
+            acc.traces += 1
+            acc.transitions += len(hist)
+            acc.nontrivial += 1
+            acc.clauses["pool_status_matches_component_statuses"] += 1
+            acc.state(repr(hist))
+            for clause, detail in viol:
+                acc.violation(Violation(clause, {"driver": "pool", "history": [list(e) for e in hist]}, detail))
+    acc.outcome("pool-directed")
+    return acc
+
+
 def pure_pool_status() -> Acc:
     acc = Acc()
     ids = [1, 2, 3]
@@ -486,6 +522,8 @@ def _dispatch(args):
         return shard(args[1:])
     if args[0] == "pool":
         return pool_shard(args[1:])
+    if args[0] == "pool-directed":
+        return pool_directed(args[1:])
     return pure_pool_status()
 
 
@@ -517,6 +555,7 @@ def run(tier: str, seed: int, workers: int):
         shards.append(("pool", tier, e, pool_depth, "cold"))
         shards.append(("pool", tier, e, pool_depth, "healthy"))
     shards.append(("pure",))
+    shards.append(("pool-directed",))
     if seed:
         import random
 
@@ -530,7 +569,8 @@ def run(tier: str, seed: int, workers: int):
         "from a cold start and after a failure; each history is one execution of the real tracker, compared step by step with "
         "the reference; non-trivial = the notification sequence contains UNCERTAIN or both WORKING and NOT_WORKING; plus the "
         "real ComponentPoolStatusTracker over two batteries (13 events incl. two results reported back to back, from a cold start and from both batteries healthy) and all "
-        "3-element ComponentPoolStatus queries; plus a BFS "
+        "3-element ComponentPoolStatus queries; plus six long directed pool histories (3-5 failed commands in a row, each after the previous "
+        "block expired, with fresh data throughout: the back-off sequence up to its cap as seen through the pool); plus a BFS "
         "from the cold start to depth 10 (quick) / 13 (thorough) with states merged on (validity flags, reception and message ages, "
         "blocking deadline relative to now, last blocking duration, last status) read from the reference AND the real tracker",
         "assumptions": [
